@@ -1,6 +1,6 @@
 """Comparison of extracted traces (trace.py) with the frozen, reviewed spec tables in /verif/spec/traces/<PROP>.json."""
 import difflib, json, os
-from . import trace as T, sites as S, hirlib as H, sym as SY
+from . import trace as T, sites as S, hirlib as H, sym as SY, units as U
 from .core import VERIF
 
 
@@ -22,43 +22,86 @@ def fn_index(c):
 
 
 _UNITS = {}
-_AUTO = {}
 
 
 def all_units(c):
-    """def paths of every function that has a reviewed table (in any property): calls between units stay opaque rows,
-    every other local helper is inlined into its caller's term"""
+    """def paths that are never inlined: the units of every property (units.py) and every exported function; plus the call graph"""
     key = id(c)
     if key not in _UNITS:
-        idx = fn_index(c)
-        units = set()
-        d = os.path.join(VERIF, "spec", "traces")
-        for fn in sorted(os.listdir(d)):
-            if not fn.endswith(".json"):
-                continue
-            with open(os.path.join(d, fn)) as fh:
-                sp = json.load(fh)
-            for name in sp["functions"]:
-                f = idx.get(name)
-                if f is not None:
-                    units.add(f["path"])
+        units = set(U.exported_units(c))
+        for prop, r in U.RULES.items():
+            units |= set(U.select(c, prop))
         from .cg import CallGraph
-        g = CallGraph(c)
-        # the I/O API boundary is never inlined through, tabled or not: crate-visible functions that reach a socket / http call
-        auto = set()
-        for f in c.fns:
-            if f["kind"] in ("Fn", "AssocFn") and f.get("hir") and (f.get("vis") == "pub" or f.get("vis") == "in:" + c.name) \
-                    and f["path"] not in units and not f["path"].startswith(SY.KERNEL_PREFIXES) and g.reaches(f["path"], SY.IO_PRED):
-                auto.add(f["path"])
-        _AUTO[key] = sorted(auto)
-        _UNITS[key] = (units | auto, g)
+        _UNITS[key] = (units, CallGraph(c))
     return _UNITS[key]
+
+
+REQUEST_OPS = ("socket.send", "Socket::new", "call http::", "call socket::")
 
 
 def rows_of(c, f, opts=None):
     units, g = all_units(c)
-    rows, notes = SY.rows_of(c, f, lambda p: p in units, g)
-    return rows
+    s = SY.Sym(c, lambda p: p in units, g)
+    eff = s.run_unit(f)
+    if opts and opts.get("project") == "requests":
+        # C09: only what is emitted - socket construction (destination), sends (bytes) and calls of other units, each with the
+        # conditions / loops it sits under; values that come from rows not shown appear as <operation>
+        p = SY.Printer(s, select=lambda op: op.name.startswith(REQUEST_OPS) or op.name.startswith("call "))
+    else:
+        p = SY.Printer(s)
+    p.emit(eff, [])
+    p.finish()
+    _SEND_AT.setdefault(id(c), set()).update(op.at for op in s.ops.values() if op.name == "socket.send" and op.at)
+    _VISITED.setdefault(id(c), set()).update(s.visited)
+    return p.rows
+
+
+_VISITED = {}
+
+
+def coverage(rep, c, prop, rule):
+    """every local function that a unit of this property can reach (resolved call graph, not crossing other units or the
+    kernel) was evaluated as part of some unit's term: no code that shapes the result escapes the tables"""
+    units, g = all_units(c)
+    mine = U.select(c, prop)
+    seen = _VISITED.get(id(c), set())
+    todo = list(mine)
+    reach = set()
+    while todo:
+        x = todo.pop()
+        for (callee, _, _) in g.edges.get(x, []):
+            f = c.fn(callee)
+            if f is None or callee in reach:
+                continue
+            if f["kind"] == "Closure":
+                reach.add(callee)
+                todo.append(callee)
+                continue
+            if callee in units or callee.startswith(SY.KERNEL_PREFIXES) or f.get("auto_derived") or f["macro"].startswith("X:") or not f.get("hir"):
+                continue
+            reach.add(callee)
+            todo.append(callee)
+    n = 0
+    for p_ in sorted(reach):
+        f = c.fn(p_)
+        if f["kind"] == "Closure":
+            continue
+        n += 1
+        ok = p_ in seen
+        rep.add("%s|covered-by-a-table" % S.fn_display(f), rule, ok,
+                "evaluated as part of a unit's term" if ok else
+                "%s is reachable from the units of %s but is neither a unit nor inlined into one: its behaviour is in no reviewed table" % (S.fn_display(f), prop),
+                f["span"], nontrivial=False)
+    rep.count("helpers_inlined", n)
+    return n
+
+
+_SEND_AT = {}
+
+
+def send_sites_seen(c):
+    """source positions of every Socket::send evaluated while building the rows of the tabled units so far"""
+    return _SEND_AT.get(id(c), set())
 
 
 def compare(rep, c, prop, rule):
@@ -99,6 +142,12 @@ def compare(rep, c, prop, rule):
                 rep.add("%s|trace|%s" % (name, "rows %d-%d" % (i1, i2) if exp else "extra after %d" % i1), rule, False,
                         "wire/mapping schedule of %s differs from the reviewed table (%s):\n      spec: %s\n      code: %s" % (
                             name, ent.get("provenance", spec.get("provenance", "")), " || ".join(exp) or "<nothing>", " || ".join(got) or "<nothing>"), f["span"])
+    # units of this property that exist in the tree but have no table yet (new API): reported, not a violation
+    if prop in U.RULES:
+        have = {idx[n]["path"] for n in spec["functions"] if n in idx}
+        for p_ in U.select(c, prop):
+            if p_ not in have:
+                rep.notes.append("unit without a reviewed table (new function?): %s" % p_)
     rep.count("trace_functions", n_fns)
     rep.count("trace_rows", n_rows)
     return n_fns, n_rows
